@@ -92,7 +92,7 @@ def run(ctx, info):
     ctx.coverage["correspondence"] = {"cases": res["n"], "disagreements": len(res["bad"]), "files": res["files"]}
     n_jobs, n_ok = real_optimizer_pass(ctx, 28 if ctx.quick else 84)
     from .. import edgesuite
-    edgesuite.run(ctx, "stop")
+    edgesuite.run(ctx, "stop", info=info)
     ctx.coverage["real_optimizer_runs"] = {"jobs": n_jobs, "completed": n_ok}
     ctx.coverage["evaluations"] += n_jobs
 
